@@ -17,6 +17,11 @@ logger = logging.getLogger('IsoQuant')
 
 
 def merge_file_list(fname, label, chr_ids):
+    dir_name, base_name = os.path.split(fname)
+    if base_name.startswith(label):
+        # per-chromosome files carry the chromosome right after the prefix the file name starts with;
+        # the prefix may occur again further in the name (e.g. prefix "s" and ".tsv")
+        return [os.path.join(dir_name, f"{label}_{chr_id}" + base_name[len(label):]) for chr_id in chr_ids]
     return [rreplace(fname, label, f"{label}_{chr_id}") for chr_id in chr_ids]
 
 
